@@ -80,20 +80,21 @@ def build(case):
 def candidates(u):
     """everything a single step may legitimately return for u (necessary condition of the statement)"""
     out = {u}
-    starts = [i + 1 for i, c in enumerate(u) if c in "=/"]
     ends = [i for i, c in enumerate(u) if c == "&"] + [len(u)]
-    for i in starts:
+    for i in (k + 1 for k, c in enumerate(u) if c == "="):
+        # percent-decoded value of a redirect-like parameter, joined to the input when relative
         for j in ends:
             if j > i:
-                s = u[i:j]
-                d = std_unquote(s)
+                d = std_unquote(u[i:j])
                 out.add(d)
-                out.add("https://" + s)
                 out.add("https://" + d)
                 try:
                     out.add(std_urljoin(u, d))
                 except ValueError:
                     pass
+    for i in (k + 1 for k, c in enumerate(u) if c == "/"):
+        # the tail of an AMP / Marfeel cache path, literally
+        out.add("https://" + u[i:])
     return out
 
 
